@@ -9,6 +9,7 @@ import (
 	"strings"
 
 	"github.com/mandykoh/prism/cielab"
+	"github.com/mandykoh/prism/ciexyy"
 	"github.com/mandykoh/prism/ciexyz"
 )
 
@@ -67,6 +68,11 @@ func init() {
 		c.res.Rule = "XYZ in [-0.5,2]^3 and Lab in L [-10,110], a,b [-200,200] x white points D50, D65 and seeded random positive whites: a lattice, dense sweeps through the junction ratio 216/24389 +/- 1e-6 on each axis, the white and its multiples, negatives, huge and tiny finite values; ToLAB against the CIE definition in float64 (1e-3), white -> (100,0,0), neutrals -> a=b=0, L monotone in Y, XYZ->Lab->XYZ (1e-5 at unit scale), finiteness; bit for bit against the Flocq model with math.Pow as oracle; non-trivial = distinct (colour, white)"
 		rng := c.rng
 		whites := []ciexyz.Color{ciexyz.D50, ciexyz.D65, {X: 1, Y: 1, Z: 1}, {X: 0.5, Y: 0.5, Z: 0.5}}
+		// other renditions of the standard illuminants: the ICC header's D50, the values derived from the xy
+		// chromaticities, 4- and 5-digit roundings, and whites a few 1e-4 away - each is its own white
+		whites = append(whites, ciexyz.Color{X: 0.9642, Y: 1, Z: 0.8249}, ciexyz.ColorFromXYY(ciexyy.D50), ciexyz.ColorFromXYY(ciexyy.D65),
+			ciexyz.Color{X: 0.96422, Y: 1, Z: 0.82521}, ciexyz.Color{X: 0.9505, Y: 1, Z: 1.089}, ciexyz.Color{X: 0.9643, Y: 1.0002, Z: 0.8248},
+			ciexyz.Color{X: 0.95047 + 0.0003, Y: 0.9997, Z: 1.08883 - 0.0004}, ciexyz.Color{X: 0.9642, Y: 0.99999994, Z: 0.8251})
 		for i := 0; i < 12; i++ {
 			whites = append(whites, ciexyz.Color{X: float32(0.3 + 1.2*rng.Float64()), Y: float32(0.3 + 1.2*rng.Float64()), Z: float32(0.3 + 1.2*rng.Float64())})
 		}
